@@ -51,11 +51,15 @@ func c19Filters() []c19Filter {
 	for _, s := range []string{"10.0.0.1", "10.0.0.1-10.0.0.5", "10.0.0.0/24", "::1", "192.168.0.0/16"} {
 		out = append(out, c19Filter{text: `|= ip("` + s + `")`, neg: `!= ip("` + s + `")`})
 	}
-	for _, m := range [][2]string{{"app", "x"}, {"y", "a"}, {"y", ""}, {"env", "p"}, {"missing", ""}, {"msg", "a"}, {"x", "007"}, {"x", "5.0"}} {
+	for _, m := range [][2]string{{"app", "x"}, {"y", "a"}, {"y", ""}, {"env", "p"}, {"missing", ""}, {"msg", "a"}, {"x", "007"}, {"x", "5.0"}, {"y", "b"}} {
 		out = append(out, c19Filter{text: `| ` + m[0] + `="` + m[1] + `"`, neg: `| ` + m[0] + `!="` + m[1] + `"`, pred: m[0] + `="` + m[1] + `"`})
 	}
 	for _, m := range [][2]string{{"app", "x|y"}, {"y", "a.*"}, {"y", ".*"}, {"env", ".+"}, {"x", "\\\\d+"}, {"x", "0.*|1e1"}} {
 		out = append(out, c19Filter{text: `| ` + m[0] + `=~"` + m[1] + `"`, neg: `| ` + m[0] + `!~"` + m[1] + `"`, pred: m[0] + `=~"` + m[1] + `"`})
+	}
+	// the negated matchers as predicates of their own (operands of and / or, also on the label of the other operand)
+	for _, m := range [][3]string{{"app", "!=", "x"}, {"y", "!=", "a"}, {"y", "!=", "b"}, {"env", "!=", "p"}, {"y", "!~", "a.*"}, {"missing", "!=", ""}} {
+		out = append(out, c19Filter{text: `| ` + m[0] + m[1] + `"` + m[2] + `"`, pred: m[0] + m[1] + `"` + m[2] + `"`})
 	}
 	for _, p := range []string{`x > 5`, `x <= 5`, `x == 5`, `x != 7`, `x >= 7`, `d >= 1s`, `d < 1h`, `sz > 1KB`, `sz <= 1KB`, `ip == ip("10.0.0.1")`, `ip != ip("10.0.0.0/24")`} {
 		out = append(out, c19Filter{text: `| ` + p, pred: p})
